@@ -115,6 +115,9 @@ def parse_tlc_output(res, out, keep_beh=True):
             continue
         if line.startswith("<<"):
             res.printed.append(line)
+    if keep_beh and out.count('"BEH"') != len(res.behaviours):
+        # TLC wraps long tuples over several lines; a BEH export must be <<"BEH", "<json>">> on one line
+        raise Infra("BEH export lines were wrapped or malformed: %d markers, %d parsed" % (out.count('"BEH"'), len(res.behaviours)))
     m = re.findall(r"(\d+) states generated, (\d+) distinct states found", out)
     if m:
         res.generated, res.distinct = int(m[-1][0]), int(m[-1][1])
